@@ -6,6 +6,7 @@ import (
 	"context"
 	"fmt"
 	"net/http"
+	"sort"
 	"testing"
 	"testing/synctest"
 	"time"
@@ -35,6 +36,7 @@ type origin struct {
 	cachedUntil time.Time
 	skipFold    bool // the answer of this call is replaced by an injected status
 	calls       int
+	faults      []string
 }
 
 func (o *origin) doc() string { return provsim.RuleSetYAML(o.host, o.version, 1+o.version%2) }
@@ -48,6 +50,8 @@ func httpProvSim(r *simcore.Run) {
 		const interval = 5 * time.Minute
 		nEP := 1 + s.Draw(2, "endpoints")
 		rec := provsim.NewRecorder(r, "http_endpoint")
+		rec.Silent = true // two endpoints are polled by two goroutines of one tick: their calls are logged sorted at quiescent points
+		logged := 0
 		var origins []*origin
 		var eps []any
 		faultPct := 0
@@ -98,20 +102,33 @@ func httpProvSim(r *simcore.Run) {
 				}
 			})
 		}
-		net.Plan = func(c *simnet.Call) simnet.Fault {
-			if faultPct == 0 || !s.Chance(faultPct, "fault?") {
-				return simnet.Fault{}
-			}
-			f := simnet.Fault{Kind: simcore.Pick(s, faultKinds, "fault-kind")}
+		// One outcome per origin and poll interval, drawn by the driver before the interval starts: the two endpoints are
+		// polled by concurrent goroutines, which must not draw from the choice source themselves.
+		stepFault := map[string]simnet.Fault{}
+		drawFaults := func() {
 			for _, o := range origins {
-				if o.host == c.Host {
-					if f.Kind == simnet.Status {
-						f.Code = []int{500, 503, 502, 429}[s.Draw(4, "status")]
-					}
+				f := simnet.Fault{}
+				if faultPct > 0 && s.Chance(faultPct, "fault?") {
+					f.Kind = simcore.Pick(s, faultKinds, "fault-kind")
 					switch f.Kind {
+					case simnet.Status:
+						f.Code = []int{500, 503, 502, 429}[s.Draw(4, "status")]
 					case simnet.Delay:
 						f.D = time.Duration(1+s.Draw(20, "delay")) * time.Second
-					case simnet.Duplicate:
+					}
+				}
+				stepFault[o.host] = f
+			}
+		}
+		net.Plan = func(c *simnet.Call) simnet.Fault {
+			f := stepFault[c.Host]
+			if f.Kind == simnet.OK {
+				return f
+			}
+			for _, o := range origins {
+				if o.host == c.Host {
+					switch f.Kind {
+					case simnet.Delay, simnet.Duplicate:
 					case simnet.Status:
 						o.skipFold = true
 						o.calls++
@@ -120,7 +137,7 @@ func httpProvSim(r *simcore.Run) {
 						o.calls++
 						o.model.Unreachable(f.Kind.String())
 					}
-					r.Count("fault:"+f.Kind.String(), 1)
+					o.faults = append(o.faults, f.Kind.String())
 				}
 			}
 			return f
@@ -142,6 +159,12 @@ func httpProvSim(r *simcore.Run) {
 		defer prov.Stop(context.Background())
 		check := func(when string) bool {
 			synctest.Wait()
+			delta := append([]string(nil), rec.Log[logged:]...)
+			logged = len(rec.Log)
+			sort.Strings(delta)
+			for _, l := range delta {
+				r.Logf("processor: %s", l)
+			}
 			for _, o := range origins {
 				// a poll that was answered from the endpoint's HTTP cache observed the cached document
 				if o.calls == 0 && o.cachedID != "" && time.Now().Add(-2*time.Second).Before(o.cachedUntil) {
@@ -205,6 +228,7 @@ func httpProvSim(r *simcore.Run) {
 			for _, o := range origins {
 				d = append(d, fmt.Sprintf("%s=%s/v%d/max-age=%d", o.host, o.kind, o.version, o.maxAge))
 			}
+			drawFaults()
 			r.Logf("step %d +%s: %v rejecting=%v fault-rate=%d%%", step, time.Since(epoch).Round(time.Second), d, rec.Rejecting, faultPct)
 			time.Sleep(interval)
 			if !check(fmt.Sprintf("after step %d", step)) {
@@ -213,7 +237,11 @@ func httpProvSim(r *simcore.Run) {
 		}
 		// quiescence: faults stop, every source is observed again (beyond any HTTP cache lifetime): the active sets must equal the latest content
 		faultPct, rec.Rejecting = 0, false
+		drawFaults()
 		for _, o := range origins {
+			for _, k := range o.faults {
+				r.Count("fault:"+k, 1)
+			}
 			o.maxAge = 0
 			if s.Draw(3, "final") == 0 {
 				o.kind = "not-found"
